@@ -2257,6 +2257,7 @@ func (e *CoreExtension) functionParent(args ...interface{}) (interface{}, error)
 
 		// Create a clean context without parent() function to prevent recursion
 		cleanCtx := NewRenderContext(ctx.env, ctx.context, ctx.engine)
+		cleanCtx.sandboxed = ctx.sandboxed
 		defer cleanCtx.Release()
 
 		// Copy all blocks and variables
